@@ -242,7 +242,9 @@ def _many_objects(ctx, rng):
 def _thin_long(ctx, rng):
     """1 x N, 2 x N, 3 x N images (and transposes), N up to 3000: single-row / single-column objects,
     very flat hulls"""
-    n = int(rng.choice([50, 300, 1000, 3000]))
+    tall = rng.rand() < 0.5
+    # a tall image makes one scan-line entry per row and edge: the model's insertion sort is quadratic in them
+    n = int(rng.choice([50, 200, 400])) if tall else int(rng.choice([50, 300, 1000, 3000]))
     w = int(rng.randint(1, 4))
     lab = np.zeros((w, n), int)
     k = int(rng.randint(1, 9))
@@ -262,7 +264,7 @@ def _thin_long(ctx, rng):
             m[rng.randint(w), 0] = m[rng.randint(w), -1] = True   # spans the whole segment
             seg[m] = labs[q]
         a = b
-    if rng.rand() < 0.5:
+    if tall:
         lab = lab.T.copy()
     present = [int(x) for x in np.unique(lab) if x]
     if not present:
@@ -473,14 +475,15 @@ def impl(case):
     def fill():
         if len(hull) and "ijv" in case:
             # rows = area of the polygons: only filled when the bounding boxes stay small
-            area = 0
+            area = rows_ = 0
             off = 0
             for c in cnt.tolist():
                 b = hull[off:off + c, 1:].astype(np.int64)
                 off += c
                 if c:
                     area += int((b[:, 0].max() - b[:, 0].min() + 1) * (b[:, 1].max() - b[:, 1].min() + 1))
-            if area > 40000:
+                    rows_ += int(b[:, 0].max() - b[:, 0].min() + 1)
+            if area > 40000 or rows_ > 1500:      # (the model sorts one entry per edge and row by insertion)
                 return "not-run"
         ijv = M.fill_convex_hulls(hull, cnt)
         return np.asarray(ijv).astype(int).tolist()
@@ -594,6 +597,22 @@ def _certificate(pix, cy, cx, r):
 # ------------------------------------------------------------------------------------ model + compare
 
 def model(ctx, cases, outs):
+    import time as _t
+    _orig = ctx.run_model
+
+    def _timed(entry, args):
+        t0 = _t.time()
+        r = _orig(entry, args)
+        ctx.timings["model:" + entry] = round(ctx.timings.get("model:" + entry, 0) + _t.time() - t0, 1)
+        return r
+    ctx.run_model = _timed
+    try:
+        return _model(ctx, cases, outs)
+    finally:
+        ctx.run_model = _orig
+
+
+def _model(ctx, cases, outs):
     res = [None] * len(cases)
     ok = [k for k in range(len(cases)) if not _bad(outs[k])]
     objs = {k: _objects(cases[k], outs[k]) for k in ok}
@@ -610,7 +629,12 @@ def model(ctx, cases, outs):
     flat = [h for hs in hulls for h in hs if len(h) >= 1]
     bf = iter(ctx.run_model("entry_feret_max", flat)) if flat else iter([])
     # the vectorised bookkeeping model (global arrays, all objects of the call together)
-    vec = ctx.run_model("entry_chrystal_vec", [[cases[k]["indexes"], hs] for k, hs in zip(ok, hulls)])
+    # (list-based global arrays: cost ~ objects x rows^2 per pass, so very large calls are left to the per-object model)
+    cheap = [len(hs) * sum(len(h) for h in hs) ** 2 <= 2 * 10 ** 7 for hs in hulls]
+    ctx.count("vectorised_model_compared", sum(cheap))
+    ctx.count("vectorised_model_skipped_large_call", len(cheap) - sum(cheap))
+    vr = iter(ctx.run_model("entry_chrystal_vec", [[cases[k]["indexes"], hs] for k, hs, c in zip(ok, hulls, cheap) if c]))
+    vec = [next(vr) if c else None for c in cheap]
     for k, r, w, f, hs, v in zip(ok, ch, sw, fl, hulls, vec):
         res[k] = {"mec": r, "mec_vec": v, "sweep": w, "fill": f, "bf_max": [next(bf) if len(h) >= 1 else 0 for h in hs]}
     return res
@@ -630,7 +654,7 @@ def compare(case, out, m):
     mec = out["mec"]
     if _exc(mec):
         return "minimum_enclosing_circle raised %s" % (mec,)
-    if m["mec_vec"] != m["mec"]:
+    if m["mec_vec"] is not None and m["mec_vec"] != m["mec"]:
         return "vectorised bookkeeping model differs from the per-object model: %s vs %s" % (str(m["mec_vec"])[:200], str(m["mec"])[:200])
     for k, r in enumerate(m["mec"]):
         cy, cx, rad = mec["cy"][k], mec["cx"][k], mec["r"][k]
